@@ -501,7 +501,63 @@ func c02IsAppendChain(v ssa.Value) bool {
 		return true
 	}
 	obj := calleeObj(call)
+	if obj != nil && obj.Pkg() != nil && obj.Pkg().Path() == "slices" && obj.Name() == "Concat" {
+		return true
+	}
 	return obj != nil && obj.Pkg() != nil && obj.Pkg().Path() == "encoding/binary" && obj.Name() == "AppendUint32"
+}
+
+// c02LiteralBytes: v is a slice literal []byte{a, b, …}: its elements in order.
+func c02LiteralBytes(v ssa.Value, at ssa.Instruction) ([]c02AppendItem, bool) {
+	sl, ok := v.(*ssa.Slice)
+	if !ok || sl.Low != nil || sl.High != nil {
+		return nil, false
+	}
+	al, ok := sl.X.(*ssa.Alloc)
+	if !ok {
+		return nil, false
+	}
+	pt, ok := al.Type().Underlying().(*types.Pointer)
+	if !ok {
+		return nil, false
+	}
+	arr, ok := pt.Elem().Underlying().(*types.Array)
+	if !ok || !c02IsBasicKind(arr.Elem(), types.Uint8) {
+		return nil, false
+	}
+	byIdx := map[int64]c02AppendItem{}
+	for _, rr := range refs(al) {
+		switch u := rr.(type) {
+		case *ssa.IndexAddr:
+			k, okk := c02ConstInt(u.Index, 0)
+			for _, r2 := range refs(u) {
+				st, ok := r2.(*ssa.Store)
+				if !ok || st.Addr != ssa.Value(u) {
+					return nil, false
+				}
+				if !okk {
+					return nil, false
+				}
+				byIdx[k] = c02AppendItem{in: at, val: st.Val, bytes: true}
+			}
+		case *ssa.Slice:
+			if u != sl {
+				return nil, false
+			}
+		default:
+			return nil, false
+		}
+	}
+	var items []c02AppendItem
+	for i := int64(0); i < arr.Len(); i++ {
+		it, ok := byIdx[i]
+		if !ok {
+			// an element left at zero
+			it = c02AppendItem{in: at, val: ssa.NewConst(constant.MakeInt64(0), arr.Elem()), bytes: true}
+		}
+		items = append(items, it)
+	}
+	return items, true
 }
 
 // c02AppendPaths enumerates, for the chain ending in v, the sequences of
@@ -577,6 +633,60 @@ func c02AppendPaths(v ssa.Value, tail []c02AppendItem, depth int, out *[][]c02Ap
 				items = []c02AppendItem{{in: x, val: src}}
 			}
 			c02AppendPaths(x.Call.Args[0], append(items, tail...), depth+1, out, why)
+			return
+		}
+		if obj := calleeObj(x); obj != nil && obj.Pkg() != nil && obj.Pkg().Path() == "slices" && obj.Name() == "Concat" && len(x.Call.Args) == 1 {
+			// slices.Concat(a, b, c): the pieces one after the other
+			sl, ok := x.Call.Args[0].(*ssa.Slice)
+			if !ok {
+				*why = "slices.Concat is not called with a literal argument list"
+				return
+			}
+			al, ok := sl.X.(*ssa.Alloc)
+			if !ok {
+				*why = "slices.Concat is not called with a literal argument list"
+				return
+			}
+			elems := map[int64]ssa.Value{}
+			var idxs []int64
+			for _, rr := range refs(al) {
+				ia, ok := rr.(*ssa.IndexAddr)
+				if !ok {
+					continue
+				}
+				k, okk := c02ConstInt(ia.Index, 0)
+				for _, r2 := range refs(ia) {
+					if st, ok := r2.(*ssa.Store); ok && st.Addr == ssa.Value(ia) && okk {
+						elems[k] = st.Val
+						idxs = append(idxs, k)
+					}
+				}
+			}
+			sort.Slice(idxs, func(i, j int) bool { return idxs[i] < idxs[j] })
+			var items []c02AppendItem
+			for _, k := range idxs {
+				e := elems[k]
+				switch {
+				case c02IsAppendChain(c02SliceBase(e)):
+					var sub [][]c02AppendItem
+					c02AppendPaths(c02SliceBase(e), nil, depth+1, &sub, why)
+					if *why != "" {
+						return
+					}
+					if len(sub) != 1 {
+						*why = "a piece handed to slices.Concat has several alternative constructions"
+						return
+					}
+					items = append(items, sub[0]...)
+				default:
+					if lit, ok := c02LiteralBytes(e, x); ok {
+						items = append(items, lit...)
+					} else {
+						items = append(items, c02AppendItem{in: x, val: e})
+					}
+				}
+			}
+			*out = append(*out, append(items, tail...))
 			return
 		}
 		if obj := calleeObj(x); obj != nil && obj.Pkg() != nil && obj.Pkg().Path() == "encoding/binary" && obj.Name() == "AppendUint32" && len(x.Call.Args) >= 2 {
